@@ -316,7 +316,10 @@ class Theory:
         
         """
         if seq.rule == "":
-            # Empty line in the proof
+            # Empty line in the proof. It proves nothing, so it cannot
+            # carry a statement that later steps could refer to.
+            if seq.th is not None:
+                raise CheckProofException("empty line cannot state a theorem")
             return None
 
         if seq.rule == "sorry":
